@@ -11,6 +11,17 @@ NOTE = ("Trusted: CrossHair 0.0.110 + z3, the overlay venv, the environment stub
         "isinstance shim), the harness oracles under /verif/vf. Grammars are a fixed corpus (classes cannot be symbolic); all bounds are in evidence.assumptions.")
 
 CLAIMED = {
+    "C19": dict(
+        text="Engine B: the numeric part of the current source of Grammar.update_weights is interpreted into z3 Real terms with every production weight "
+             "a symbolic real >= 0 (each rule with positive total) for rule structures of 1-4 productions, two rules and the nested structure of the "
+             "weighted fixture: non-negativity, sum-to-one per rule, cross-multiplied ratio preservation and f(f(w)) == f(w) are each discharged as unsat "
+             "(nonlinear real arithmetic); the encoding is validated against the real extraction on real classes, and repeated real extraction is "
+             "compared concretely. Engine A: ProgressivelyTerminalDecider and the weighted choice used by the stack mapper run over the weighted grammar "
+             "with symbolic draws and depth: the chosen production never has weight 0, and no program created under the weight-aware decider contains the "
+             "zero-weight production. Bounds: rules of <= 4 productions, one nesting level, depth / draw fuel as stated.",
+        design_ref="DESIGN.md section 4 (C19)",
+        technique="own AST->z3 encoding of the normalisation kernel over Reals (engine B, NRA unsat per claim) + bounded symbolic execution of the choosers (CrossHair)",
+    ),
     "C09": dict(
         text="Mutation and crossover of all five representations and every built-in step (elitism, novelty, tournament, lexicase, mutation, crossover, "
              "sequence, parallel, exclusive parallel) run on parents / populations created by the real code over symbolic draws; a by-value-and-identity "
